@@ -68,7 +68,7 @@ CHECKS = {
   "The check binary is the default (sorted map) configuration; the check also builds the cfg engine's binary with preserve_order and runs the same value-tree enumeration plus the parse -> print -> parse battery there (equality by canonical form and by ==).",
   "exhaustive enumeration of value trees x insertion orders; fixed-point and validity oracles"),
  "C06": ("model_checking", "tree", "5/C06",
-  "Complete enumeration of tree shapes with <= 4 (quick) / 5 (thorough) nodes over {leaf, array, inline table, table, array of tables}, keys from 10 adversarial keys and leaves from ~240 adversarial leaves (every pair of byte-class representatives, control characters, quote runs, i64 edges, float specials, four date-time kinds) with <= 1 position deviating (thorough adds every PAIR of positions over a reduced leaf alphabet on the <= 4-node shapes) and every chain of <= 5 (7) nested containers; each tree is built through five construction routes and as toml::Table; printed text must be valid (specification model), accepted by the parser, decode to the built tree, be a fixed point and print identically twice and across routes.",
+  "Complete enumeration of tree shapes with <= 4 (quick) / 5 (thorough) nodes over {leaf, array, inline table, table, array of tables}, keys from 10 adversarial keys and leaves from ~240 adversarial leaves (every pair of byte-class representatives, control characters, quote runs, i64 edges, float specials, four date-time kinds) with <= 1 position deviating (thorough adds every PAIR of positions over a reduced leaf alphabet on the <= 4-node shapes) and every chain of <= 5 (7) nested containers; each tree is built through five construction routes and as toml::Table; printed text must be valid (specification model), accepted by the parser, decode to the built tree, be a fixed point and print identically twice (byte equality ACROSS construction routes is not promised by the property and only tallied).",
   "Key order is compared separately among value entries and among table entries (TOML syntax forces values first); NaNs by sign only. One known finding (empty array of tables prints nothing) recognised exactly.",
   "exhaustive enumeration of small value trees x construction routes; validity, decode-equality and fixed-point oracles"),
  "C08": ("model_checking", "state", "5/C08",
